@@ -37,6 +37,7 @@ func checkC01(w *World, r *Report) {
 	c01Exhaustive(w, r, a)
 	applyLoopComplete(w, r, a, "C01.i", "i-every-entry-applied")
 	c12Layout(w, r, "C01", ".j1", ".j2", ".j3")
+	c12BufferReuse(w, r, "C01.j4", "j4-encode-into-empty-buffer")
 }
 
 // ---- C01.a ----
@@ -1141,6 +1142,41 @@ func c01Exhaustive(w *World, r *Report, a *FsmA) {
 			if c, ok := bo.Y.(*ssa.Const); ok && types.Identical(c.Type(), enumT) {
 				v, _ := constant.Int64Val(constant.ToInt(c.Value))
 				seen[v] = true
+			}
+		})
+		// or a lookup table: a package-level map keyed by the enum, filled at initialisation
+		eachInstr(disp, func(in ssa.Instruction) {
+			lk, ok := in.(*ssa.Lookup)
+			if !ok {
+				return
+			}
+			u, ok := lk.X.(*ssa.UnOp)
+			if !ok {
+				return
+			}
+			g, ok := u.X.(*ssa.Global)
+			if !ok {
+				return
+			}
+			mt, ok := g.Type().(*types.Pointer).Elem().Underlying().(*types.Map)
+			if !ok || !types.Identical(mt.Key(), enumT) {
+				return
+			}
+			if initFn := g.Pkg.Func("init"); initFn != nil {
+				var stored ssa.Value
+				eachInstr(initFn, func(x ssa.Instruction) {
+					if st, ok := x.(*ssa.Store); ok && st.Addr == ssa.Value(g) {
+						stored = st.Val
+					}
+				})
+				eachInstr(initFn, func(x ssa.Instruction) {
+					if mu, ok := x.(*ssa.MapUpdate); ok && mu.Map == stored {
+						if c, ok := mu.Key.(*ssa.Const); ok && c.Value != nil {
+							v, _ := constant.Int64Val(constant.ToInt(c.Value))
+							seen[v] = true
+						}
+					}
+				})
 			}
 		})
 		for v, n := range consts {
